@@ -194,12 +194,14 @@ type stabT struct {
 	Differ   []string `json:"differ"`
 	DigestV  bool     `json:"digest_v_changed"`
 	NodeV    bool     `json:"node_state_changed"`
+	Config   string   `json:"config"` // default | labelmap-index-cache
+	Checkpoints int   `json:"checkpoints"`
 	Nonempty int      `json:"reads_with_content"`
 }
 
 // stability: snapshot V, run a random later history on descendants, siblings, merges, new and
 // deleted instances, snapshot again.
-func stability(run *lib.Run, rng *lib.Rand, o lib.Opts) {
+func stability(run *lib.Run, rng *lib.Rand, o lib.Opts, config string) {
 	_, entries := loadRoutes()
 	byPkg := map[string][]instT{}
 	has := map[string]bool{}
@@ -209,7 +211,24 @@ func stability(run *lib.Run, rng *lib.Rand, o lib.Opts) {
 	}
 	before := snapshot(entries, byPkg)
 	d0 := digest()
-	st := stabT{Kind: "stability", Reads: len(before)}
+	st := stabT{Kind: "stability", Config: config, Reads: len(before)}
+	// checkpoints: the snapshot is retaken at several points of the later history; for every read
+	// the first answer that differs from the one at commit time is kept (a wrong answer served
+	// from a cache may be evicted again by a later operation)
+	worst := snapT{}
+	for k, v := range before {
+		worst[k] = v
+	}
+	checkpoint := func() {
+		quiesce(true)
+		now := snapshot(entries, byPkg)
+		for k, v := range before {
+			if worst[k] == v && now[k] != v {
+				worst[k] = now[k]
+			}
+		}
+		st.Checkpoints++
+	}
 	for _, v := range before {
 		if strings.HasPrefix(v, "200:") {
 			st.Nonempty++
@@ -252,9 +271,21 @@ func stability(run *lib.Run, rng *lib.Rand, o lib.Opts) {
 			op("POST gray/raw (child)", dv.Post(node(u, "gray", "raw/0_1_2/32_32_32/0_0_0?u=verif"), grayB))
 		}
 		if has["lm"] {
+			// proofreading in the child: what V reads for labels 1, 2 and supervoxel 3 must not move
+			op("POST lm/merge [1,2] (child)", dv.Post(node(u, "lm", "merge?u=verif"), []byte("[1,2]")))
+			quiesce(true)
+			op("POST lm/cleave/1 [3] (child)", dv.Post(node(u, "lm", "cleave/1?u=verif"), []byte("[3]")))
+			quiesce(true)
+		}
+		if has["la"] {
+			op("POST la/merge [1,2] (child)", dv.Post(node(u, "la", "merge?u=verif"), []byte("[1,2]")))
+			quiesce(true)
+		}
+		checkpoint()
+		if has["lm"] {
 			op("POST lm/raw (child)", dv.Post(node(u, "lm", "raw/0_1_2/64_64_64/0_0_0?u=verif"), volBBytesG))
 			quiesce(true)
-			op("POST lm/merge (child)", dv.Post(node(u, "lm", "merge?u=verif"), []byte("[7,8]")))
+			op("POST lm/merge [7,8] (child)", dv.Post(node(u, "lm", "merge?u=verif"), []byte("[7,8]")))
 		}
 		if has["an"] {
 			op("POST an/elements (child)", dv.Post(node(u, "an", "elements?u=verif"), []byte(annotB)))
@@ -279,6 +310,7 @@ func stability(run *lib.Run, rng *lib.Rand, o lib.Opts) {
 		if len(st.Ops) > 0 {
 			blame()
 		}
+		checkpoint()
 	}
 	for i := 0; i < nops; i++ {
 		switch k := rng.Intn(14); {
@@ -377,16 +409,8 @@ func stability(run *lib.Run, rng *lib.Rand, o lib.Opts) {
 		}
 	}
 	_ = blame
-	for _, in := range insts {
-		if !has[in.Name] {
-			continue
-		}
-		if d, err := datastore.GetDataByUUIDName(dvid.UUID(uuidR), dvid.InstanceName(in.Name)); err == nil {
-			for _, u := range append(append([]string{}, open...), committed...) {
-				datastore.BlockOnUpdating(dvid.UUID(u), d.DataName())
-			}
-		}
-	}
+	time.Sleep(60 * time.Millisecond)
+	quiesce(true)
 	// lmscratch may be gone: it holds nothing stamped with V that the snapshot reads, but its keys
 	// stamped with other versions legitimately disappear: compare only V's note/log/lock and the
 	// V-stamped keys of the surviving instances through the snapshot itself
@@ -396,7 +420,8 @@ func stability(run *lib.Run, rng *lib.Rand, o lib.Opts) {
 			byPkg2[in.Pkg] = append(byPkg2[in.Pkg], in)
 		}
 	}
-	after := snapshot(entries, byPkg)
+	checkpoint()
+	after := worst
 	d1 := digest()
 	st.NodeV = d0.Node != d1.Node
 	var keys []string
@@ -406,6 +431,7 @@ func stability(run *lib.Run, rng *lib.Rand, o lib.Opts) {
 	sort.Strings(keys)
 	type perT struct {
 		Kind   string   `json:"kind"`
+		Config string   `json:"config"`
 		Inst   string   `json:"instance"`
 		Pkg    string   `json:"pkg"`
 		Reads  int      `json:"reads"`
@@ -424,7 +450,7 @@ func stability(run *lib.Run, rng *lib.Rand, o lib.Opts) {
 		name := parts[4]
 		p := per[name]
 		if p == nil {
-			p = &perT{Kind: "stability-instance", Inst: name}
+			p = &perT{Kind: "stability-instance", Config: config, Inst: name}
 			for _, in := range insts {
 				if in.Name == name {
 					p.Pkg = in.Pkg
@@ -449,19 +475,19 @@ func stability(run *lib.Run, rng *lib.Rand, o lib.Opts) {
 			}
 		}
 	}
-	run.Extra["stability_reads"] = st.Reads
-	run.Extra["stability_reads_with_content"] = st.Nonempty
-	run.Extra["stability_ops"] = len(st.Ops)
+	run.Extra["stability_reads/"+config] = st.Reads
+	run.Extra["stability_reads_with_content/"+config] = st.Nonempty
+	run.Extra["stability_ops/"+config] = len(st.Ops)
 	if explore {
 		for _, d := range st.Differ {
 			fmt.Println("DIFF", d)
 		}
 		fmt.Println("stability: reads", st.Reads, "with content", st.Nonempty, "ops", len(st.Ops), "differ", len(st.Differ), "node", st.NodeV)
 	}
-	run.Add("stability", fmt.Sprintf("CStable %d %d %d %s", st.Reads, st.Nonempty, len(st.Differ), lib.CoqBool(st.NodeV)), st, "stability")
+	run.Add("stability", fmt.Sprintf("CStable %d %d %d %s", st.Reads, st.Nonempty, len(st.Differ), lib.CoqBool(st.NodeV)), st, "stability/"+config)
 	for _, name := range names {
 		p := per[name]
 		p.Ops = st.Ops
-		run.Add("stability-instance", fmt.Sprintf("CStabInst %d %d %d %d", p.Code, p.Reads, len(p.Differ), len(p.Known)), p, "stability/"+name)
+		run.Add("stability-instance", fmt.Sprintf("CStabInst %d %d %d %d", p.Code, p.Reads, len(p.Differ), len(p.Known)), p, "stability/"+config+"/"+name)
 	}
 }
